@@ -281,7 +281,12 @@ impl ClientLoop {
             self.decode,
         )?;
 
-        io.write(bytes, self.decode.physical).await?;
+        // a peer that stops reading must not block the write (and with it this request, the queue
+        // behind it, disable and shutdown) forever: the transmission gets the time the response gets
+        match tokio::time::timeout(request.timeout, io.write(bytes, self.decode.physical)).await {
+            Ok(res) => res?,
+            Err(_) => return Err(std::io::Error::from(std::io::ErrorKind::TimedOut).into()),
+        }
 
         let deadline = deadline_after(request.timeout);
 
